@@ -44,10 +44,10 @@ SIM_CHECKS = [
     ("C03", "model_checking", sim_text("Decides soundness of wait_for_acknowledgments (success implies delivery) and its completion after heal, reader deletion and silent participant departure."), "5.1, 6 C03"),
     ("C04", "model_checking", sim_text("Decides durability: history for late TRANSIENT_LOCAL readers (per-instance depth), none for VOLATILE, wait_for_historical_data."), "5.1, 6 C04"),
     ("C05", "model_checking", sim_text("Decides fragment numbering/length/reassembly for fragment sizes 8..65000 at payload sizes k*f-4, k*f, k*f+4 under fragment-level faults."), "5.1, 6 C05"),
-    ("C16", "model_checking", "Trace_Discovery.tla states the matched set of every endpoint as a function of the live, compatible (Compat rules), reachable, non-ignored remote endpoints and derives current_count/total_count/change fields from the history of match events; randomized histories of remote endpoint creation, QoS update (compatible and incompatible), deletion, participant deletion and silent departure interleaved with status reads are executed by real participants in the deterministic simulation and every observed status is compared by TLC with the specification's value; emissions to departed readers are flagged.", "5.3, 6 C16"),
+    ("C16", "model_checking", "Trace_Discovery.tla states the matched set of every endpoint as a function of the live, compatible (Compat rules), reachable, non-ignored remote endpoints and derives current_count/total_count/change fields from the history of match events; randomized histories of remote endpoint creation, QoS update (compatible and incompatible), deletion, participant deletion and silent departure interleaved with status reads, plus deterministic families (silent departure beyond the lease for reliable/best-effort writers and readers; every three-step deadline history of a remote reader) are executed by real participants in the deterministic simulation and every observed status is compared by TLC with the specification's value; emissions to departed readers are flagged.", "5.3, 6 C16"),
     ("C17", "model_checking", "Trace_Discovery.tla gives, for every observation of get_discovered_participants, the participants that must and must not be known: same domain id and tag, not ignored, lease window [last communication + lease, + one worker period] for silent participants, rediscovery after heal. Scenario families (isolation by domain/tag, lease expiry with virtual time, rediscovery, ignore, announcement loss) run on real participants in the simulation and are validated event by event by TLC.", "5.3, 6 C17"),
     ("C30", "model_checking", "Trace_Worker.tla computes, from the recorded write / reception times, the number of full deadline periods that elapsed per instance (Missed) and accepts an observed offered/requested deadline-missed total_count only inside [count one worker period earlier, count now]; every listener callback must carry total_count = k and total_count_change = 1 and be justified by a missed period; at the end every missed period must have been signalled. Timing patterns (gaps of 0.3..3.7 periods, 1-2 instances, deadlines 20 ms..1 s, simultaneous writes) run on the real worker with the virtual clock.", "5.5, 6 C30"),
-    ("C31", "model_checking", "Every duration the worker passes to Timer::delay is recorded by the simulated timer and Trace_Worker.tla requires 0 <= d <= 50 ms on each of them, in scenario families that make each time_until_* term the minimum, including already overdue ones (deadlines shorter than the worker period, lifespans, blocked writes, lease expiry, announcements); Timeout of a blocked write within max_blocking_time + one period is judged by Trace_Rtps (C27 family).", "5.5, 6 C31"),
+    ("C31", "model_checking", "Every duration the worker passes to Timer::delay is recorded by the simulated timer and Trace_Worker.tla requires 0 <= d <= 50 ms on each of them, in scenario families that make each time_until_* term the minimum, including already overdue ones (deadlines shorter than the worker period, lifespans, blocked writes released by a lease expiry long after the lifespan of the blocked sample, lease expiry, announcements), also with a virtual clock that moves between two reads inside one worker iteration (clock-drift family: 0.7 / 100 / 300 us per read); Timeout of a blocked write within max_blocking_time + one period is judged by Trace_Rtps (C27 family).", "5.5, 6 C31"),
     ("C06", "model_checking", "Adversary.tla describes the datagrams an adversary can send: every RTPS submessage kind (DATA, DATA_FRAG, HEARTBEAT, HEARTBEAT_FRAG, GAP, ACKNACK, NACK_FRAG, INFO_TS/DST/SRC/REPLY/REPLY_IP4, PAD, unknown, vendor specific) with each field ranging over its default and boundary alternatives (sequence numbers 0, -1, 2^32, 2^63-1, -2^63; bitmap sizes up to 2^32-1 with missing/surplus words; fragment numbers/sizes 0, 65535, 2^32-1; lengths zero/short/beyond the datagram/odd; payloads and parameter lists empty, truncated, unterminated, with huge collection lengths, spoofed GUIDs), source prefix known/unknown/victim/zero, user and built-in (SPDP, SEDP, liveliness, type lookup) target endpoints, header and truncation variants, INFO_* prefixes. TLC enumerates all messages with at most two fields off their default (7 760); the harness encodes each byte by byte (own encoder) and injects it into a victim participant with live reliable endpoints in both directions inside the simulation; Inject must be a stuttering step for well behaved peers: no panic, no hang (wall-clock watchdog), heap growth <= 100 x datagram length + 4 MB (counting allocator), and afterwards a fresh participant must discover, match and exchange a sample in each direction with the victim; traces are validated by TLC against Trace_Adversary.tla. Quick: all single-field variants, header/truncation/prefix variants and a seeded quarter of the two-field variants; thorough: all.", "6 C06"),
     ("C26", "model_checking", "Trace_Filter.tla: a writer publishes samples of the related topic; on another participant a reader on a content filtered topic (member = %0 or member <= %0 on an INT32 key, an INT32 member or a STRING member, several spellings of the expression) and a control reader on the related topic take samples. Rules: every presented sample was written, is unchanged, passes the filter and is presented once; at the end every passing sample the related topic delivered was presented by the filtered reader. Scenario families: bursts, gaps, seeded loss/duplication/reordering, TRANSIENT_LOCAL late joiners and 'batched' (the simulated network merges the held datagrams of the writer into one RTPS message with several DATA submessages, as a batching peer would send them); traces validated event by event by TLC.", "6 C26"),
     ("C27", "model_checking", sim_text("Decides that a reliable KEEP_LAST write evicts only acknowledged samples, blocks otherwise and times out within max_blocking_time + one worker period."), "5.1, 6 C27"),
@@ -100,15 +100,15 @@ OTHER_CHECKS = [
      "explicit TLA+ spec + TLC; every transition replayed through the public API in a two-participant deterministic simulation"),
     ("C36", "model_checking",
      "Entities.tla gives the DDS return code of every create / delete / get_qos / delete_contained_entities / delete_participant call as a function of the entity tree (children present, topic in use, already deleted, wrong parent); TLC enumerates all histories of <= 6 operations (2 publishers, 1 subscriber, 2 topics with 2 names, 2 writers, 1 reader; 1 559 states, 7 247 transitions) and every transition is replayed through the async API in the simulation and compared.",
-     "5.8, 6 C36", GRAPH_NOTE + " Content-filtered topics and set_listener on deleted entities are not in the model yet.",
+     "5.8, 6 C36", GRAPH_NOTE + " Content filtered topics are in the model (create / delete / topic still related / delete_contained_entities); set_listener on deleted entities and readers on content filtered topics are not.",
      "explicit TLA+ spec + TLC; every transition replayed through the public API in the deterministic simulation"),
     ("C38", "model_checking",
-     "FragSize.tla: set_fragment_size accepts exactly 8..=65000 and keeps the previous value on error; TLC enumerates all sequences of 3 calls over the value classes {0,7,8,9,1344,64999,65000,65001,usize::MAX} and every transition is replayed on the real RtpsUdpTransportParticipantFactory.",
+     "FragSize.tla: set_fragment_size accepts exactly 8..=65000 and keeps the previous value on error; TLC enumerates all sequences of 3 calls over the value classes {0,7,8,9,1344,64999,65000,65001,65535,65536,65543,65544,70000,2^17+1344,2^32+500,usize::MAX} (incl. values whose low 16 bits are in range) and every transition is replayed on the real RtpsUdpTransportParticipantFactory.",
      "6 C38", "Trusted: TLC; value classes instead of all usize values.",
      "explicit TLA+ spec + TLC; every transition replayed on the real object"),
     ("C34", "model_checking",
      "Channels.tla models the oneshot, mpsc and notification channels with one action per critical section of the code (send, clone, drop of a sender, poll with a waker id); TLC checks ExactlyOnceFifo and NoLostWakeup for all interleavings (<= 2 senders, 3 sends, 4 polls, 2 wakers) and every transition is replayed on the real channels with counting wakers: poll results, received values and wake-up counts are compared after every step.",
-     "5.7, 6 C34", GRAPH_NOTE + " Thread-level linearizability is argued from the code structure (each operation is a single critical_section::with), not tested with real threads.",
+     "5.7, 6 C34", GRAPH_NOTE + " Linearizability of poll against a concurrent send / drop of the last sender is tested with a real second thread released at the waker clone inside poll (PollRacing: either order is accepted, a Pending without wake-up while the value is queued is not). ChannelsA.tla: Apalache proves NoLostWakeup /\\ Fifo inductive for the mpsc design (unbounded numbers of operations); the split-poll variant must fail (thorough).",
      "explicit TLA+ spec + TLC exhaustive; every transition replayed on the real channels"),
     ("C15", "model_checking",
      "Compat.tla states the DDS request/offered table and the partition matching rule as operators; TLC enumerates every pair of policy groups over all their abstract values (15 050 QoS records) and 693 partition-list pairs with the specification's verdict; both compatibility functions of the code are evaluated on every record (exhaustive) and sampled records / partition pairs are created as real writer/reader pairs in the deterministic simulation, where both sides must reach the specification's verdict.",
@@ -122,7 +122,7 @@ CHECKS = [
     ("C19", "model_checking", rc_text("Decides reader-side resource limits and rejection reasons."), "5.2, 6 C19"),
     ("C20", "model_checking", rc_text("Decides read/take selection by masks, max_samples, instance, READ marking/removal and SampleInfo ranks."), "5.2, 6 C20"),
     ("C21", "model_checking", rc_text("Decides per-instance source-timestamp order for all arrival orders of 3 timestamps."), "5.2, 6 C21"),
-    ("C22", "model_checking", rc_text("Decides instance/view state and generation counts for all write/dispose/unregister/read interleavings of two writers."), "5.2, 6 C22"),
+    ("C22", "model_checking", rc_text("Decides instance/view state and generation counts for all write/dispose/unregister/read interleavings of two writers, incl. the unregister of a writer with autodispose (NOT_ALIVE_DISPOSED + writer removed, cfg C22c)."), "5.2, 6 C22"),
     ("C23", "model_checking", rc_text("Decides read_next_instance/take_next_instance over three instances with masks."), "5.2, 6 C23"),
     ("C24", "model_checking", rc_text("Decides exclusive ownership with two strengths, unregister and unmatch of the owner."), "5.2, 6 C24"),
     ("C25", "model_checking", rc_text("Decides the time-based filter for all orders of 5 timestamps with separation 2."), "5.2, 6 C25"),
